@@ -572,6 +572,10 @@ impl Engine for C03 {
         }
         units.push(UnitSpec { id, name: "ladder".into(), isolated: true, exhaustive: false });
         id += 1;
+        for b in gen_zinc::BOUNDARIES {
+            units.push(UnitSpec { id, name: format!("boundary:{b}"), isolated: false, exhaustive: true });
+            id += 1;
+        }
         // two-fault enumeration for the short base documents
         let max2 = self.max_len_two_faults();
         for (name, _, _, text) in self.base_docs() {
@@ -591,6 +595,31 @@ impl Engine for C03 {
         }
         if unit.name == "ladder" {
             return Box::new(self.ladder().into_iter());
+        }
+        if let Some(b) = unit.name.strip_prefix("boundary:") {
+            // every token kind straddling a buffer-size boundary, a little text after it; list and grid
+            let boundary: usize = b.parse().unwrap_or(4096);
+            let uname = unit.name.clone();
+            return Box::new((0..gen_zinc::ZINC_LIST_UNIT.len()).step_by(if boundary > 20000 { 3 } else { 1 }).flat_map(move |shift| {
+                let list = gen_zinc::boundary_doc("[", gen_zinc::ZINC_LIST_UNIT, "N]", b' ', boundary, shift);
+                let grid = gen_zinc::boundary_doc("ver:\"3.0\" pad:\"", gen_zinc::ZINC_ROW_UNIT, "", b'p', boundary, shift);
+                // the padding of the grid sits inside a meta string that is closed before the columns
+                let mut grid_fixed = Vec::new();
+                let head_len = "ver:\"3.0\" pad:\"".len() + shift;
+                grid_fixed.extend_from_slice(&grid[..head_len]);
+                grid_fixed.extend_from_slice(b"\"\na,b,c,d\n");
+                grid_fixed.extend_from_slice(&grid[head_len..]);
+                let uname = uname.clone();
+                let mut out = Vec::new();
+                for (sink, doc, chunk) in [("zinc-value", &list, Chunk::Full), ("zinc-value", &list, Chunk::Fixed(4096)), ("zinc-str", &list, Chunk::Full), ("zinc-rows", &grid_fixed, Chunk::Full), ("zinc-value", &grid_fixed, Chunk::Pow2)] {
+                    let mut c = Case::new("C03", sink, doc);
+                    c.read.chunk = chunk;
+                    c.extra.insert("mutation".into(), "boundary".into());
+                    c.origin = format!("{uname} shift={shift} {sink}");
+                    out.push(c);
+                }
+                out.into_iter()
+            }));
         }
         if let Some(name) = unit.name.strip_prefix("enum2:") {
             let docs = self.base_docs();
